@@ -186,41 +186,71 @@ def neighbours(x, k=2):
     return out
 
 
+def fields_of(e):
+    if e[0] == "f":
+        yield e[1]
+    for x in e[1:]:
+        if isinstance(x, list):
+            yield from fields_of(x)
+
+
+def node_criticals(s):
+    """critical values of one node's own configuration"""
+    vals = set()
+    k = s["k"]
+    if k == "Bin":
+        lo, hi, n = s["low"], s["high"], s["num"]
+        for i in range(n + 1):
+            vals.update(neighbours(lo + i * (hi - lo) / n))
+            vals.update(neighbours((hi - lo) * i / n + lo))
+        vals.update(neighbours(hi))
+        vals.update(neighbours(lo))
+        vals.add(lo + (hi - lo) / (2 * n))
+    elif k == "SparselyBin":
+        for i in range(-2, 4):
+            vals.update(neighbours(s["origin"] + i * s["bw"]))
+        vals.add(s["origin"] + 0.5 * s["bw"])
+        vals.update([1e19 * s["bw"], -1e19 * s["bw"]])
+    elif k == "CentrallyBin":
+        cs = sorted(s["centers"])
+        for a, b in zip(cs, cs[1:]):
+            vals.update(neighbours((a + b) / 2.0))
+        vals.update(cs)
+    elif k in ("IrregularlyBin", "Stack"):
+        for e in s["edges"]:
+            vals.update(neighbours(e))
+    if "q" in s:
+        for c in consts(s["q"]["e"]):
+            vals.update(neighbours(c, 1))
+    return vals
+
+
+def clean(vals):
+    out = sorted(v for v in vals if v == v and abs(v) != INF and not (v == 0.0 and math.copysign(1, v) < 0))
+    return out
+
+
 def critical_values(spec):
     """edges, midpoints and thresholds of every binning node, each with its +-1,+-2 ulp
     neighbours, plus fillers and non-finite values"""
     vals = set()
     for s in walk(spec):
-        k = s["k"]
-        if k == "Bin":
-            lo, hi, n = s["low"], s["high"], s["num"]
-            for i in range(n + 1):
-                vals.update(neighbours(lo + i * (hi - lo) / n))
-                vals.update(neighbours((hi - lo) * i / n + lo))
-            vals.update(neighbours(hi))
-            vals.update(neighbours(lo))
-            vals.add(lo + (hi - lo) / (2 * n))
-        elif k == "SparselyBin":
-            for i in range(-2, 4):
-                vals.update(neighbours(s["origin"] + i * s["bw"]))
-            vals.add(s["origin"] + 0.5 * s["bw"])
-            vals.update([1e19 * s["bw"], -1e19 * s["bw"]])
-        elif k == "CentrallyBin":
-            cs = sorted(s["centers"])
-            for a, b in zip(cs, cs[1:]):
-                vals.update(neighbours((a + b) / 2.0))
-            vals.update(cs)
-        elif k in ("IrregularlyBin", "Stack"):
-            for e in s["edges"]:
-                vals.update(neighbours(e))
-        for qk in ("q",):
-            if qk in s:
-                for c in consts(s[qk]["e"]):
-                    vals.update(neighbours(c, 1))
-    vals.update([0.0, 1.0, -1.0, 0.125, 2.5, -3.75, NAN, INF, -INF])
-    vals.discard(-0.0)
-    out = sorted(v for v in vals if v == v and abs(v) != INF and not (v == 0.0 and math.copysign(1, v) < 0))
-    return out + [NAN, INF, -INF]
+        vals.update(node_criticals(s))
+    vals.update([0.0, 1.0, -1.0, 0.125, 2.5, -3.75])
+    return clean(vals) + [NAN, INF, -INF]
+
+
+def critical_by_field(spec):
+    """per datum field: the critical values of the nodes whose quantity reads that field (so that
+    a value meant for one node's edge actually reaches that node)"""
+    out = {0: set(), 1: set(), 2: set()}
+    for s in walk(spec):
+        if "q" in s:
+            fs = [f for f in fields_of(s["q"]["e"]) if f in out]
+            if len(fs) == 1 or (fs and s["q"]["e"][0] == "f"):
+                for f in fs:
+                    out[f].update(node_criticals(s))
+    return {f: clean(v) for f, v in out.items()}
 
 
 def consts(e):
@@ -236,9 +266,11 @@ WEIGHTS = [1.0, 1.0, 1.0, 2.0, 0.5, 0.25, 3.0, 0.0, -1.0, NAN]
 POSWEIGHTS = [1.0, 1.0, 2.0, 0.5, 0.25, 3.0]
 
 
-def datum(r, vals, fault_p=0.0, plain=False):
-    def numv():
+def datum(r, vals, fault_p=0.0, plain=False, byfield=None):
+    def numv(i):
         c = r.random()
+        if byfield and byfield.get(i) and c < 0.55:
+            return r.choice(byfield[i])
         if c < 0.72:
             return r.choice(vals)
         if c < 0.9:
@@ -249,9 +281,10 @@ def datum(r, vals, fault_p=0.0, plain=False):
             return r.choice([True, False])
         return float(r.randint(-3, 3))
     flag = r.random() < fault_p
-    return [numv(), numv(), numv(), r.choice(CATS), flag]
+    return [numv(0), numv(1), numv(2), r.choice(CATS), flag]
 
 
 def stream(r, spec, n, weights=WEIGHTS, fault_p=0.0):
     vals = critical_values(spec)
-    return [(datum(r, vals, fault_p), r.choice(weights)) for _ in range(n)]
+    bf = critical_by_field(spec)
+    return [(datum(r, vals, fault_p, byfield=bf), r.choice(weights)) for _ in range(n)]
